@@ -107,8 +107,10 @@ def shard(a):
             subs = []
             if c.isdigit() and c.isascii():
                 same = DIGITS.get(int(c), [])
-                k = min(len(same), a['scripts'])
-                subs += rnd.sample(same, k)
+                nd = [d for d in same if unicodedata.category(d) == 'Nd']
+                rest = [d for d in same if unicodedata.category(d) != 'Nd']
+                # decimal digits of other scripts (int() and \d accept them) and other numeric characters separately
+                subs += rnd.sample(nd, min(len(nd), a['scripts'])) + rnd.sample(rest, min(len(rest), 2))
                 other = DIGITS.get((int(c) + 1) % 10, [])
                 if other:
                     subs.append(rnd.choice(other))
